@@ -8,6 +8,29 @@ require (
 	go.mongodb.org/mongo-driver v1.11.1
 )
 
-require github.com/pkg/errors v0.9.1 // indirect
+require (
+	github.com/andygrunwald/go-jira v1.14.0 // indirect
+	github.com/bluele/slack v0.0.0-20180528010058-b4b4d354a079 // indirect
+	github.com/coreos/go-systemd v0.0.0-20191104093116-d3cd4ed1dbcf // indirect
+	github.com/dghubble/oauth1 v0.7.0 // indirect
+	github.com/fatih/structs v1.1.0 // indirect
+	github.com/fsnotify/fsnotify v1.5.1 // indirect
+	github.com/fuyufjh/splunk-hec-go v0.3.3 // indirect
+	github.com/golang-jwt/jwt v3.2.1+incompatible // indirect
+	github.com/google/go-github v17.0.0+incompatible // indirect
+	github.com/google/go-querystring v0.0.0-20170111101155-53e6ce116135 // indirect
+	github.com/mattn/go-xmpp v0.0.0-20210723025538-3871461df959 // indirect
+	github.com/mongodb/grip v0.0.0-20211018154934-e661a71929d5 // indirect
+	github.com/papertrail/go-tail v0.0.0-20180509224916-973c153b0431 // indirect
+	github.com/pkg/errors v0.9.1 // indirect
+	github.com/satori/go.uuid v1.2.0 // indirect
+	github.com/shirou/gopsutil v3.21.9+incompatible // indirect
+	github.com/tklauser/go-sysconf v0.3.9 // indirect
+	github.com/tklauser/numcpus v0.3.0 // indirect
+	github.com/trivago/tgo v1.0.7 // indirect
+	golang.org/x/net v0.0.0-20211112202133-69e39bad7dc2 // indirect
+	golang.org/x/oauth2 v0.0.0-20211005180243-6b3c2da341f1 // indirect
+	golang.org/x/sys v0.0.0-20220811171246-fbc7d0a398ab // indirect
+)
 
 replace github.com/mongodb/ftdc => /repo
